@@ -2148,3 +2148,132 @@ Section BoundedLawful.
              rewrite Hemp. reflexivity.
   Qed.
 End BoundedLawful.
+
+(* ------------------------------------------------------------------------------------ *)
+(* Part 6: positions, in words                                                            *)
+(* ------------------------------------------------------------------------------------ *)
+
+(* p is the entry of the least key >= t of l (None: there is none) *)
+Definition least_ge (l : list kv) (t : bytes) (p : option kv) : Prop :=
+  match p with
+  | Some x => In x l /\ blt (fst x) t = false /\
+              forall y, In y l -> blt (fst y) t = false -> blt (fst y) (fst x) = false
+  | None => forall y, In y l -> blt (fst y) t = true
+  end.
+
+(* p is the entry of the greatest key of l (None: l is empty) *)
+Definition greatest (l : list kv) (p : option kv) : Prop :=
+  match p with
+  | Some x => In x l /\ forall y, In y l -> blt (fst x) (fst y) = false
+  | None => l = []
+  end.
+
+(* p is the entry of the least key > k of l (None: there is none) *)
+Definition least_gt (l : list kv) (k : bytes) (p : option kv) : Prop :=
+  match p with
+  | Some x => In x l /\ blt k (fst x) = true /\
+              forall y, In y l -> blt k (fst y) = true -> blt (fst y) (fst x) = false
+  | None => forall y, In y l -> blt k (fst y) = false
+  end.
+
+Lemma from_ge_least : forall t l, ksorted l -> least_ge l t (ohd (from_ge t l)).
+Proof.
+  intros t l Hs. destruct (from_ge t l) as [|x r] eqn:G; cbn [ohd least_ge].
+  - intros y Hy. apply from_ge_nil_iff in G. rewrite Forall_forall in G. apply G. exact Hy.
+  - assert (Hx : In x (from_ge t l)) by (rewrite G; left; reflexivity).
+    apply from_ge_in in Hx; [|exact Hs]. destruct Hx as [Hx Bx]. split; [exact Hx|]. split; [exact Bx|].
+    intros y Hy By. assert (Hy' : In y (from_ge t l)) by (apply from_ge_in; [exact Hs|split; assumption]).
+    rewrite G in Hy'. destruct Hy' as [<-|Hy']; [apply blt_irrefl|].
+    pose proof (from_ge_ksorted t l Hs) as Hg. rewrite G in Hg. apply (ksorted_hd x r y Hg Hy').
+Qed.
+
+Lemma from_gt_least : forall k l, ksorted l -> least_gt l k (ohd (from_gt k l)).
+Proof.
+  intros k l Hs. destruct (from_gt k l) as [|x r] eqn:G; cbn [ohd least_gt].
+  - intros y Hy. apply from_gt_nil_iff in G. rewrite Forall_forall in G. apply G. exact Hy.
+  - assert (Hx : In x (from_gt k l)) by (rewrite G; left; reflexivity).
+    apply from_gt_in in Hx; [|exact Hs]. destruct Hx as [Hx Bx]. split; [exact Hx|]. split; [exact Bx|].
+    intros y Hy By. assert (Hy' : In y (from_gt k l)) by (apply from_gt_in; [exact Hs|split; assumption]).
+    rewrite G in Hy'. destruct Hy' as [<-|Hy']; [apply blt_irrefl|].
+    pose proof (from_gt_ksorted k l Hs) as Hg. rewrite G in Hg. apply (ksorted_hd x r y Hg Hy').
+Qed.
+
+Lemma last_run_greatest : forall l, ksorted l -> greatest l (ohd (last_run l)).
+Proof.
+  intros l Hs. destruct l as [|x0 l0] eqn:El; [reflexivity|]. rewrite <- El in *.
+  destruct (last_run_spec l Hs ltac:(rewrite El; discriminate)) as (z & r & E & Hz & Hm & _).
+  rewrite E. cbn [ohd greatest]. split; assumption.
+Qed.
+
+(* for one entry per key: what lies behind the head of a suffix is what is greater *)
+Lemma strict_tl_from_gt : forall pre x r, kstrict (pre ++ x :: r) -> from_gt (fst x) (pre ++ x :: r) = r.
+Proof.
+  induction pre as [|y pre IH]; intros x r H; cbn [app from_gt].
+  - assert (B : ble (fst x) (fst x) = true) by (apply ble_true_iff; apply blt_irrefl). rewrite B.
+    inversion H as [|? ? _ Hf]; subst. destruct r as [|z r']; [reflexivity|]. cbn [from_gt].
+    pose proof (Forall_inv Hf) as C. unfold klt in C. apply ble_false_iff in C. rewrite C. reflexivity.
+  - inversion H as [|? ? Hs Hf]; subst. rewrite Forall_forall in Hf.
+    assert (B : klt y x) by (apply Hf; apply in_or_app; right; left; reflexivity). unfold klt in B.
+    assert (B' : ble (fst y) (fst x) = true) by (apply ble_true_iff; apply blt_asym; exact B).
+    rewrite B'. apply IH. exact Hs.
+Qed.
+
+Section Positions.
+  Context {S : Type} (I : Iter S) (ok : S -> Prop) (content rest : S -> list kv).
+  Context (L : Lawful I ok content rest).
+
+  (* where the iterator stands: its key and value, None when it is not valid *)
+  Definition pos (s : S) : option kv := if i_valid I s then Some (i_key I s, i_value I s) else None.
+
+  Lemma pos_ohd : forall s, ok s -> pos s = ohd (rest s).
+  Proof. intros s H. exact (cand_ohd I ok content rest L s H). Qed.
+
+  (* Seek that repositions: the least key >= target *)
+  Theorem seek_least : forall t s, ok s -> ExactSeek I ok content rest ->
+    least_ge (content s) t (pos (fst (i_seek I t s))).
+  Proof.
+    intros t s H X. destruct (L_seek _ _ _ _ L t s H) as (A1 & _ & _).
+    rewrite (pos_ohd _ A1), (proj1 (X t s H)). apply from_ge_least. apply (L_sorted _ _ _ _ L s H).
+  Qed.
+
+  (* Seek in general: the least key >= target, or nothing is >= target and the position did not move *)
+  Theorem seek_least_weak : forall t s, ok s ->
+    least_ge (content s) t (pos (fst (i_seek I t s))) \/
+    ((forall y, In y (content s) -> blt (fst y) t = true) /\ pos (fst (i_seek I t s)) = pos s /\
+     snd (i_seek I t s) = false).
+  Proof.
+    intros t s H. destruct (L_seek _ _ _ _ L t s H) as (A1 & _ & [[E _]|(E1 & E2 & E3)]).
+    - left. rewrite (pos_ohd _ A1), E. apply from_ge_least. apply (L_sorted _ _ _ _ L s H).
+    - right. split; [|split; [|exact E3]].
+      + intros y Hy. apply from_ge_nil_iff in E1. rewrite Forall_forall in E1. apply E1. exact Hy.
+      + rewrite (pos_ohd _ A1), (pos_ohd _ H), E2. reflexivity.
+  Qed.
+
+  Theorem last_greatest : forall s, ok s -> greatest (content s) (pos (i_last I s)).
+  Proof.
+    intros s H. destruct (L_last _ _ _ _ L s H) as (A1 & _ & A3).
+    rewrite (pos_ohd _ A1), A3. apply last_run_greatest. apply (L_sorted _ _ _ _ L s H).
+  Qed.
+
+  Theorem first_least : forall s, ok s -> least_ge (content s) [] (pos (i_first I s)).
+  Proof.
+    intros s H. destruct (L_first _ _ _ _ L s H) as (A1 & _ & A3).
+    rewrite (pos_ohd _ A1), A3.
+    replace (content s) with (from_ge [] (content s)) at 2.
+    - apply from_ge_least. apply (L_sorted _ _ _ _ L s H).
+    - destruct (content s) as [|x r]; [reflexivity|]. cbn [from_ge].
+      assert (B : blt (fst x) [] = false) by (unfold blt; destruct (fst x); reflexivity). rewrite B. reflexivity.
+  Qed.
+
+  (* Next on a valid position of an iterator with one entry per key: the least greater key *)
+  Theorem next_least_gt : forall s, ok s -> kstrict (content s) -> i_valid I s = true ->
+    least_gt (content s) (i_key I s) (pos (fst (i_next I s))).
+  Proof.
+    intros s H K V. destruct (L_next _ _ _ _ L s H V) as (A1 & _ & A3 & _).
+    rewrite (pos_ohd _ A1), A3. rewrite (L_key _ _ _ _ L s H V).
+    destruct (L_suffix _ _ _ _ L s H) as (pre & E).
+    destruct (rest s) as [|x r] eqn:R; [rewrite (L_valid _ _ _ _ L s H), R in V; discriminate|].
+    cbn [tl hd_key]. rewrite E in K. rewrite <- (strict_tl_from_gt pre x r K), <- E.
+    apply from_gt_least. apply (L_sorted _ _ _ _ L s H).
+  Qed.
+End Positions.
